@@ -53,24 +53,26 @@ BlockingAttachments(vas, pods, podPV, now, sa) ==
     IN {v \in vas : v.pv # "-" /\ v.pv \notin kept}
 
 \* ---------------------------------------------------------------- C09
-\* n: the Node as stored just before the finalizer-removing write; c: its NodeClaim as stored; pods / vas: the
-\* pods bound to / volumes attached to the node at that instant; gonePids: provider ids for which the provider
-\* answered NotFound to Karpenter; now: the instant of the write.  termination time: c.terminationAt (-1 none).
+\* n: the Node as stored just before the finalizer-removing write; c: its NodeClaim as stored; podsD: the pods bound to
+\* the node that the drain has to answer for (bound before the finalizer-removing reconcile looked at the node's pods);
+\* podsV / vas: the pods / VolumeAttachment objects of the node when the volumes were judged (an attachment blocks as long
+\* as the OBJECT exists - a deletionTimestamp alone means the detach is still in progress); gonePids: provider ids for
+\* which the provider answered NotFound to Karpenter; now: the instant of the write; c.terminationAt: -1 = none.
 \* ">= terminationAt" is the weaker reading of "the termination grace period has expired".
-NodeFinalizerParts(n, c, pods, vas, podPV, gonePids, now, sa) ==
+NodeFinalizerParts(n, c, podsD, podsV, vas, podPV, gonePids, now, sa) ==
     [cordoned |-> HasDisruptedTaint(n),
-     drained |-> \A p \in pods : ~WaitingEviction(p, now, sa),
-     volumes |-> \/ BlockingAttachments(vas, pods, podPV, now, sa) = {}
+     drained |-> \A p \in podsD : ~WaitingEviction(p, now, sa),
+     volumes |-> \/ BlockingAttachments(vas, podsV, podPV, now, sa) = {}
                  \/ (c.terminationAt >= 0 /\ now >= c.terminationAt),
      instanceGone |-> n.providerID \in gonePids,
      notReady |-> n.ready # "True"]
-G_C09_NodeFinalizer(n, c, pods, vas, podPV, gonePids, now, sa) ==
-    LET q == NodeFinalizerParts(n, c, pods, vas, podPV, gonePids, now, sa) IN
+G_C09_NodeFinalizer(n, c, podsD, podsV, vas, podPV, gonePids, now, sa) ==
+    LET q == NodeFinalizerParts(n, c, podsD, podsV, vas, podPV, gonePids, now, sa) IN
     \/ (q.notReady /\ q.instanceGone)
     \/ (q.cordoned /\ q.drained /\ q.volumes /\ q.instanceGone)
 \* the first conjunct that fails (witness class for known-finding matching)
-NodeFinalizerSig(n, c, pods, vas, podPV, gonePids, now, sa) ==
-    LET q == NodeFinalizerParts(n, c, pods, vas, podPV, gonePids, now, sa) IN
+NodeFinalizerSig(n, c, podsD, podsV, vas, podPV, gonePids, now, sa) ==
+    LET q == NodeFinalizerParts(n, c, podsD, podsV, vas, podPV, gonePids, now, sa) IN
     IF ~q.instanceGone THEN "instance-not-confirmed-gone"
     ELSE IF ~q.cordoned THEN "not-cordoned"
     ELSE IF ~q.drained THEN "pods-waiting-eviction"
